@@ -6,6 +6,10 @@ import MsVerif.Driver.OpsSpend
 import MsVerif.Driver.OpsSat
 import MsVerif.Driver.OpsText
 import MsVerif.Driver.OpsLift
+import MsVerif.Driver.OpsDesc
+import MsVerif.Driver.OpsBounds
+import MsVerif.Driver.OpsPlan
+import MsVerif.Driver.OpsValidate
 
 namespace MsVerif.Driver
 
@@ -47,7 +51,19 @@ def step (st : DState) (line : String) : DState × String :=
                 | none =>
                   match opsLift st.tables kind op args with
                   | some r => (st, r)
-                  | none => (st, "bad-op")
+                  | none =>
+                    match opsDesc st.tables kind op args with
+                    | some r => (st, r)
+                    | none =>
+                      match opsBounds st.tables kind op args with
+                      | some r => (st, r)
+                      | none =>
+                        match opsPlan st.tables kind op args with
+                        | some r => (st, r)
+                        | none =>
+                          match opsValidate st.tables kind op args with
+                          | some r => (st, r)
+                          | none => (st, "bad-op")
   | _ => (st, "bad-op")
 
 end MsVerif.Driver
